@@ -50,6 +50,8 @@ PSY_INTERNAL:
 private:
     SemanticModel* semaModel_;
     const SpecifierSyntax* tySpecNode_;
+    const DeclaratorSyntax* decltorNode_;
+    SyntaxToken diagnosticToken() const;
     std::stack<const Symbol*> syms_;
     mutable std::unordered_set<const Type*> discardedTys_;
     std::unordered_set<const Identifier*> internalTydefNameIdents_;
